@@ -252,3 +252,21 @@ Theorem C15_oracle_sound_partial : forall (A : Type) (ops : app_ops A) (p : para
   rule_prop r = PC15 -> r = R15_no_reply_no_timeout.
 Proof. exact c15_oracle_sound_partial. Qed.
 Print Assumptions C15_oracle_sound_partial.
+
+(* ------------------------------------------------------------------------------------------ *)
+(* ORACLE SOUNDNESS, FULL (Proofs/C15Liveness.v on top of FdlOracleSound1-8): on a transcript of the model,
+   for ALL input histories, NO rule of C15 fires - the liveness rule R15_no_reply_no_timeout included:
+   "in AwaitDataResponse, a poll that is quiet for the monitor (PHY not busy, own transmission over, no RX
+   growth, no uncounted bytes) later than one slot time after the monitor's reference instant delivers the
+   reply or the time-out (or otherwise acts)".  The proof keeps, while the station waits for a data reply,
+   last_bus_activity = Some l with l <= l_ref, l_txend <= l, and pending_bytes covering the PHY buffer
+   unless l_spur is set (C15Liveness.WA); then do_await_data_response takes its `None` branch with l
+   unchanged, check_slot_expired compares exactly l + Tslot < now, and the time-out callback is made. *)
+From PB Require Import C15Liveness.
+
+Theorem C15_oracle_sound : forall (A : Type) (ops : app_ops A) (p : params),
+  apps_total A ops -> builder_valid p -> app_sends_data A ops ->
+  forall (apps : list A) (ins : list minput), ins_ok 0 ins ->
+  forall k r, In (k, r) (monitor p (length apps) (model_transcript A ops p apps ins)) -> rule_prop r <> PC15.
+Proof. exact c15_oracle_sound. Qed.
+Print Assumptions C15_oracle_sound.
